@@ -390,6 +390,9 @@ func (c *conn) sqlStatement(ctx context.Context, query string) (*sqlResult, erro
 // inconclusive (never as a violation, never as infrastructure trouble); the statement itself fails like a
 // feature the server does not support.
 func (w *World) unsupportedSQL(ctx context.Context, err error, query string) error {
+	if sqlTrace {
+		fmt.Fprintf(os.Stderr, "SQLTRACE-UNSUPPORTED %s: %v :: %s\n", taskKeyOf(ctx), err, normSQL(query))
+	}
 	if ctx.Value(softSQLKey) != nil {
 		// a read that has a model-served fallback: nothing is marked
 		return pgErr("0A000", err.Error(), "")
